@@ -65,6 +65,26 @@ CHECKS = [
          note='Trusted: brute-force embedding enumerator (vf/oracles/iso.py) bounded to targets <= 24 / patterns <= 8 atoms; leaf '
               'predicates are the library atom/bond __eq__ (their meaning is decided in C08).',
          technique='differential property-based testing against an exhaustive reference enumerator'),
+    dict(id='C08',
+         text='For generated molecules (incl. explicit hydrogens added through the API) every drawn query atom / two-atom query - all '
+              'documented primitives and drawn combinations, as SMARTS text and through the query API - must match exactly the '
+              'atoms / ordered pairs selected by an independently computed attribute vector (adjacency-derived neighbours, '
+              'heteroatoms, hybridisation; independent ring oracle; stored charge/isotope/radical/H); stereo-marked queries are '
+              'tested against both enantiomers; every bracket token string up to 3 tokens and every bond token is enumerated for '
+              'the reject-or-query clause, with a list of out-of-subset SMARTS that must raise the invalid-SMARTS error.',
+         note='Trusted: the documented default semantics of query atoms (charge 0 / non-radical unless given, empty = any, ~ = special '
+              'bond), the ring oracle (ring-size primitives only where the minimum cycle basis is unique), an explicit metal list '
+              '(ambiguous elements not used).',
+         technique='property-based differential testing of query semantics against independent attribute vectors + exhaustive token enumeration'),
+    dict(id='C09',
+         text='Differential testing of the two matcher configurations on generated (query, molecule) pairs (C07/C08 generators incl. '
+              'ring closures on cage-like targets, scopes, both filter settings) and an exhaustive bit-layout sweep (every element x '
+              'tabulated isotope x charge x radical with exact and one-attribute-off queries; neighbour/heteroatom 0-14, H 0-4, '
+              'hybridisation 1-4, ring sizes 3-66).',
+         note='The compiled configuration is the repository .pyx source executed by a transliterator with C integer semantics and '
+              'bounds-checked pointers (no Cython here): source-level defects are in reach, compiler-level effects are not. '
+              'Documented exclusions (Lv/Ts/Og, rings > 65) are skipped and counted.',
+         technique='differential property-based testing of two configurations + exhaustive sweep of the bit layout'),
     dict(id='C18',
          text='Exhaustive enumeration of the finite domain (118 elements x all tabulated isotopes + unspecified x charge '
               '-4..+4 x radical): lookups against a literal standard table, table-key consistency, mass computability, '
